@@ -1031,6 +1031,11 @@ def random_history(rng, names, n_steps):
                     st['cur'] = [n2, value_for(name, rng)]
                 else:
                     st['ref'] = n2
+                # round 8 (C15O): a 2.0 DeleteAttribute may carry BOTH a Current Attribute and an Attribute Reference;
+                # the current attribute decides (exactly that instance goes), the reference may name the same or
+                # another attribute
+                if st.get('cur') is not None and rng.random() < 0.4:
+                    st['ref'] = n2 if rng.random() < 0.75 else rng.choice(CHANGEABLE)
         else:
             q = rng.random()
             if q < 0.25:
@@ -1059,10 +1064,11 @@ def random_history(rng, names, n_steps):
                 elif form == 'mod' and v2 and st.get('cur') is not None and jv_plain(st['cur']) in cur_list:
                     cur_list[cur_list.index(jv_plain(st['cur']))] = jv_plain(val)
                 elif form == 'del' and v2:
-                    if st.get('ref'):
+                    if st.get('cur') is not None:
+                        if name != 'Name' and jv_plain(st['cur'][1]) in cur_list:
+                            cur_list.remove(jv_plain(st['cur'][1]))
+                    elif st.get('ref'):
                         del cur_list[:]
-                    elif name != 'Name' and jv_plain(st['cur'][1]) in cur_list:
-                        cur_list.remove(jv_plain(st['cur'][1]))
             except Exception:
                 pass
         if o is not None and name == 'Sensitive' and form in ('mod', 'set') and user == o['owner']:
@@ -1129,6 +1135,7 @@ def boundary_steps():
             out.append({'form': 'del', 'v': 1, 'name': name, 'idx': idx})
         for cur in (stored, empty, ['A', 'ns1', ''] if stored[0] == 'A' else ['T', 'zz']):
             out.append({'form': 'del', 'v': 2, 'cur': [name, cur]})
+            out.append({'form': 'del', 'v': 2, 'cur': [name, cur], 'ref': name})     # both fields: the current attribute decides
         out.append({'form': 'del', 'v': 2, 'ref': name})
     for b in (True, False):
         out.append({'form': 'set', 'v': 2, 'new': ['Sensitive', ['B', b]]})
